@@ -125,9 +125,9 @@ fn set_heights(p: &mut StarkProof) {
     }
 }
 
-pub const GROUPS: [&str; 15] = [
+pub const GROUPS: [&str; 16] = [
     "n_queries", "blowup", "blowup_mod_p", "trace_size", "last_layer_bound", "n_layers", "n_friendly", "fri_input_only", "steps_all",
-    "big_domain", "step1_shift", "zero_columns", "output_span", "program_span", "trailing_step",
+    "big_domain", "step1_shift", "zero_columns", "output_span", "program_span", "trailing_step", "drop_inner_layer",
 ];
 
 pub fn group_values(name: &str) -> Vec<u64> {
@@ -155,6 +155,10 @@ pub fn group_values(name: &str) -> Vec<u64> {
         // one surplus trailing FRI step x (v<100: x = v; v>=100: x = p-(v-100)) with the last-layer bound
         // re-declared to lb - x, so that a sum over the WHOLE step vector still matches the trace size
         "trailing_step" => vec![1, 2, 101, 102, 104],
+        // v in 1..=3: the last v inner-layer table configs dropped (steps and n_layers kept) with the
+        // last-layer bound raised by the steps that lost their config; v = 11, 12: one more layer
+        // declared (n_layers + 1, a step of v - 10 appended, bound lowered by it) without a table config
+        "drop_inner_layer" => vec![1, 2, 3, 11, 12],
         _ => vec![],
     }
 }
@@ -325,6 +329,27 @@ pub fn apply_group(p: &mut StarkProof, name: &str, v: u64) {
             let x = if v < 100 { Felt::from(v) } else { Felt::ZERO - Felt::from(v - 100) };
             p.config.fri.fri_step_sizes.push(x);
             p.config.fri.log_last_layer_degree_bound -= x;
+            if let Some(lb) = vcommon::fu64(&p.config.fri.log_last_layer_degree_bound) {
+                if lb <= 16 {
+                    p.unsent_commitment.fri.last_layer_coefficients.resize(1usize << lb, Felt::ZERO);
+                }
+            }
+        }
+        "drop_inner_layer" => {
+            if v <= 3 {
+                let k = (v as usize).min(p.config.fri.inner_layers.len());
+                let n = p.config.fri.fri_step_sizes.len();
+                let lost = p.config.fri.fri_step_sizes[n.saturating_sub(k)..].iter().fold(Felt::ZERO, |a, s| a + *s);
+                for _ in 0..k {
+                    p.config.fri.inner_layers.pop();
+                }
+                p.config.fri.log_last_layer_degree_bound += lost;
+            } else {
+                let x = Felt::from(v - 10);
+                p.config.fri.n_layers += Felt::ONE;
+                p.config.fri.fri_step_sizes.push(x);
+                p.config.fri.log_last_layer_degree_bound -= x;
+            }
             if let Some(lb) = vcommon::fu64(&p.config.fri.log_last_layer_degree_bound) {
                 if lb <= 16 {
                     p.unsent_commitment.fri.last_layer_coefficients.resize(1usize << lb, Felt::ZERO);
